@@ -57,6 +57,53 @@ def rule_ctor_dom(ctx: RuleContext, p: Program, rid: str) -> None:
               note='narration defaulted when payee given; delegates (None, payee, narration)')
 
 
+def rule_disambig(ctx: RuleContext, p: Program, rid: str) -> None:
+    ctx.rule(rid, 'juxtaposed custom values: UNARY_OP and ADD_OP share their literals in the grammar, so a value that starts with a '
+                  'sign is absorbed by *any* preceding number expression (whatever its last token); _disambiguate_values must wrap '
+                  'every value whose number starts with a unary operator whenever the previous value is a NumberExpr -- the guard on '
+                  'the previous value may not be narrowed -- and must look inside Amount as well as NumberExpr')
+    from .. import rx
+    from .c12 import grammar
+    g = grammar(p)
+    un, ad = g.literal_alternatives('UNARY_OP'), g.literal_alternatives('ADD_OP')
+    collide = bool(un and ad and set(un) & set(ad))
+    f = p.func('models.custom', '_disambiguate_values')
+    loops = [l for l in walk_no_nested(f.node) if isinstance(l, ast.For)]
+    if len(loops) != 1:
+        raise AnalysisError('DISAMBIG: loop of _disambiguate_values not found')
+    lp = loops[0]
+    val = norm(lp.target)
+    outer = [s for s in lp.body if isinstance(s, ast.If)]
+    problems = []
+    if not collide:
+        ctx.ok(rid, 'grammar: UNARY_OP / ADD_OP', 'no shared literal: juxtaposition is unambiguous', nontrivial=False)
+        return
+    if len(outer) != 1:
+        problems.append('expected one guard on the previous value')
+    else:
+        t = outer[0].test
+        prev_names = {norm(a.targets[0]) for a in lp.body if isinstance(a, ast.Assign) and norm(a.value) == val}
+        ok_guard = isinstance(t, ast.Call) and norm(t.func) == 'isinstance' and norm(t.args[0]) in prev_names and norm(t.args[1]) == 'NumberExpr'
+        if not ok_guard:
+            problems.append(f'the guard on the previous value is `{norm(t)}`; it must be exactly isinstance(<previous>, NumberExpr): any '
+                            f'extra condition leaves a previous number expression (e.g. one ending in ")") unprotected')
+        kinds = {norm(c.args[1]) for c in ast.walk(outer[0]) if isinstance(c, ast.Call) and norm(c.func) == 'isinstance' and norm(c.args[0]) == val}
+        if kinds != {'Amount', 'NumberExpr'}:
+            problems.append(f'the current value is inspected as {sorted(kinds)}, expected Amount and NumberExpr')
+        wraps = [c for c in ast.walk(outer[0]) if isinstance(c, ast.Call) and isinstance(c.func, ast.Attribute) and c.func.attr == 'wrap_with_parenthesis']
+        un_test = [c for c in ast.walk(outer[0]) if isinstance(c, ast.Call) and norm(c.func) == 'isinstance' and norm(c.args[1]) == 'NumberUnaryExpr'
+                   and 'raw_operands[0].raw_operands[0]' in norm(c.args[0])]
+        if len(wraps) != 1 or len(un_test) != 1:
+            problems.append('does not wrap exactly the numbers whose first atom is a unary expression')
+    ys = [y for y in ast.walk(lp) if isinstance(y, ast.Yield)]
+    if len(ys) != 1 or norm(ys[0].value) != val or any(isinstance(x, (ast.Continue, ast.Break)) for x in ast.walk(lp)):
+        problems.append('does not yield every value exactly once')
+    if not any(isinstance(a, ast.Assign) and norm(a.value) == val and lp.body.index(a) == len(lp.body) - 1 for a in lp.body if isinstance(a, ast.Assign)):
+        problems.append('the previous value is not updated last in every iteration')
+    ctx.check(not problems, rid, 'models.custom:_disambiguate_values', '; '.join(problems) or 'ok', '; '.join(problems), f.where,
+              note=f'UNARY_OP {un} collide with ADD_OP {ad}: guard = isinstance(prev, NumberExpr)')
+
+
 def run(ctx: RuleContext, p: Program) -> None:
     tcs = build_tree_classes(p)
     ctx.try_rule(gen.rule_cover_init, p, tcs, 'COVER-INIT')
@@ -67,6 +114,7 @@ def run(ctx: RuleContext, p: Program) -> None:
         ctx.require_min(r, 34)
     ctx.require_min('FV-COVER', 20)
     ctx.try_rule(rule_ctor_dom, p, 'CTOR-DOM')
+    ctx.try_rule(rule_disambig, p, 'DISAMBIG')
     from . import grammar_rules
     ctx.try_rule(grammar_rules.rule_gram_fields, p, tcs, 'GRAM-FIELDS')
     ctx.not_decided += ['that the printed text of a constructed model parses (runtime / lexer)',
